@@ -20,8 +20,8 @@ Entries are kept in name order: the order of `read_dir` is OS dependent and ever
 
 Not modelled (the step function answers `FsOut.outside`): keys with a path component `.` / `..` or a NUL (the OS
 resolves those specially: `a/./b` names the same file as `a/b`), prefixes that are accepted by
-`StorePrefix::validate` but are not `validPrefixB` (`a//`), `size_key` and suffix/empty reads of a key that is a
-directory (the answer is the OS's).  The `readonly` flag (base directory without write permission) is not modelled.
+`StorePrefix::validate` but are not `validPrefixB` (`a//`), `size_key` and empty ranged reads (other than
+`FromStart(0, Some(0))`) of a key that is a directory (the answer is the OS's).  The `readonly` flag (base directory without write permission) is not modelled.
 -/
 namespace Zarrs.Fs
 open Zarrs
@@ -324,11 +324,13 @@ def listDirUnrepaired (s : FsState) (p : Key) (path : List Name) : List Key × L
 
 end FsState
 
-/-- one range of `get_partial_values_key` on an open file: seek, then `read_to_end` / `read_exact`
-(seeking past the end is allowed and reads nothing; `read_exact` of missing bytes and a seek before the start fail) -/
+/-- one range of `get_partial_values_key` on an open file, after the validation pass: seek, then `read_to_end` /
+`read_exact`.  (Repaired code, F-C08-10: `ByteRange::is_valid(file_size)` is checked for every range before any seek;
+a range beyond the end is an error - `FromStart(o > len, None)` and `FromStart(o > len, Some(0))` used to read
+nothing.)  The checks below are those of the seek/read themselves; after the validation pass they cannot fail. -/
 def readRange (b : Bytes) : ByteRange → Option Bytes
-  | .fromStart o none => some (b.drop o)
-  | .fromStart o (some l) => if l = 0 ∨ o + l ≤ b.length then some (slice b o (o + l)) else none
+  | .fromStart o none => if o ≤ b.length then some (b.drop o) else none
+  | .fromStart o (some l) => if o + l ≤ b.length then some (slice b o (o + l)) else none
   | .suffix l => if l ≤ b.length then some (b.drop (b.length - l)) else none
 
 def readRanges (b : Bytes) : List ByteRange → Option (List Bytes)
@@ -338,23 +340,34 @@ def readRanges (b : Bytes) : List ByteRange → Option (List Bytes)
     | none => none
     | some x => (match readRanges b rest with | none => none | some xs => some (x :: xs))
 
-def isEmptyFromStart : ByteRange → Bool
-  | .fromStart _ (some 0) => true
+/-- ranges that read nothing wherever they are served from: only those can succeed on a directory -/
+def isZeroAtStart : ByteRange → Bool
+  | .fromStart 0 (some 0) => true
   | _ => false
-def isSuffix : ByteRange → Bool
-  | .suffix _ => true
-  | _ => false
+/-- ranges that read at least one byte or to the end: on a directory they fail (invalid for the directory's size,
+or EISDIR from the read) -/
+def isReading : ByteRange → Bool
+  | .fromStart _ none => true
+  | .fromStart _ (some l) => l != 0
+  | .suffix l => l != 0
 
-/-- `get_partial_values_key`: `File::open` (NotFound: `None`), then the ranges in order.  A directory opens but
-every read of it fails (EISDIR), except `read_exact` of nothing; seeking from its end is OS dependent. -/
+/-- `get_partial_values_key`: `File::open` (NotFound: `None`), `file.metadata()?.len()`, ALL ranges validated
+against that length (any invalid one: `InvalidByteRangeError`, nothing is read), then the ranges in order.
+A directory opens and has an OS-dependent length: a reading range fails one way or the other (invalid, or the
+read gives EISDIR), `FromStart(0, Some(0))` succeeds with nothing; `FromStart(o > 0, Some(0))` (valid or not,
+depending on the directory's length) and `Suffix(0)` (seeking from a directory's end) are OS dependent. -/
 def getPartial (s : FsState) (path : List Name) (rs : List ByteRange) : FsOut :=
   match s.stat path with
   | .noent => .res (.parts none)
   | .notdir => .res .err
-  | .file b => (match readRanges b rs with | some xs => .res (.parts (some xs)) | none => .res .err)
+  | .file b =>
+    if rs.all (·.valid b.length) then
+      (match readRanges b rs with | some xs => .res (.parts (some xs)) | none => .res .err)
+    else .res .err
   | .dir _ =>
-    if rs.all isEmptyFromStart then .res (.parts (some (rs.map (fun _ => []))))
-    else if rs.any isSuffix then .outside else .res .err
+    if rs.any isReading then .res .err
+    else if rs.all isZeroAtStart then .res (.parts (some (rs.map (fun _ => []))))
+    else .outside
 
 /-- `ReadableStorageTraits::get`: the range `FromStart(0, None)` -/
 def getKey (s : FsState) (path : List Name) : Except Unit (Option Bytes) :=
